@@ -4,7 +4,7 @@
 mod verif_kani_parsed {
     use super::*;
     use crate::{Datelike, Timelike, Weekday};
-    use super::super::ParseErrorKind;
+    use super::super::{ParseError, ParseErrorKind};
 
     fn any_opt_i32() -> Option<i32> { if kani::any() { Some(kani::any()) } else { None } }
     fn any_opt_u32() -> Option<u32> { if kani::any() { Some(kani::any()) } else { None } }
@@ -255,4 +255,173 @@ mod verif_kani_parsed {
             Err(e) => match p.offset { None => assert!(e.kind() == ParseErrorKind::NotEnough, "e.kind() == ParseErrorKind::NotEnough"), Some(v) => assert!((v <= -86400 || v >= 86400) && e.kind() == ParseErrorKind::OutOfRange, "(v <= -86400 || v >= 86400) && e.kind() == ParseErrorKind::OutOfRange") },
         }
     }
+
+    // ---- Parsed::to_naive_datetime_with_offset, checked against the *contracts* of its callees -----------------------------------
+    // The four callees that do the calendar work are replaced by stubs that return ANY result their proved contracts allow and
+    // record it, so the harness checks what this function itself adds: which callee result it returns, the timestamp cross-check,
+    // the order of error kinds, the leap-second step, and that it returns for every input.
+    //   to_naive_date  : a successful date agrees with the supplied fields            (vk_parsed_date_agrees)
+    //   to_naive_time  : a successful time agrees with the clock fields, 60 = leap     (vk_parsed_time)
+    //   DateTime::from_timestamp(s, 0): None, or the date-time of that second, nanosecond 0   (Verus unit datetime)
+    //   NaiveDateTime::checked_sub_signed: None, or a well-formed date-time             (Verus unit datetime: dt_add_post)
+    static mut DATE_CALLS: u8 = 0;
+    static mut TIME_CALLS: u8 = 0;
+    static mut DATE_RES: [Option<ParseResult<NaiveDate>>; 2] = [None, None];
+    static mut TIME_RES: [Option<ParseResult<NaiveTime>>; 2] = [None, None];
+    static mut FT_CALLS: u8 = 0;
+    static mut FT_ARGS: (i64, u32) = (0, 0);
+    static mut FT_RES: Option<NaiveDateTime> = None;
+    static mut CS_CALLS: u8 = 0;
+    static mut CS_ARGS: Option<(NaiveDateTime, TimeDelta)> = None;
+    static mut CS_RES: Option<NaiveDateTime> = None;
+    fn any_err() -> ParseError { let k: u8 = kani::any(); match k { 0 => OUT_OF_RANGE, 1 => IMPOSSIBLE, _ => NOT_ENOUGH } }
+    fn any_time(frac: u32) -> NaiveTime { let t = NaiveTime::from_num_seconds_from_midnight_opt(kani::any(), frac); kani::assume(t.is_some()); t.unwrap() }
+    fn stub_to_naive_date(p: &Parsed) -> ParseResult<NaiveDate> {
+        let r: ParseResult<NaiveDate> = if kani::any() { Ok(any_valid_date()) } else { Err(any_err()) };
+        if let Ok(d) = r {
+            if let Some(y) = p.year { kani::assume(d.year() == y); }
+            if let Some(o) = p.ordinal { kani::assume(d.ordinal() == o); }
+            if let Some(m) = p.month { kani::assume(d.month() == m); }
+            if let Some(x) = p.day { kani::assume(d.day() == x); }
+        }
+        unsafe { let i = DATE_CALLS as usize; if i < 2 { DATE_RES[i] = Some(r); } DATE_CALLS += 1; }
+        r
+    }
+    fn stub_to_naive_time(p: &Parsed) -> ParseResult<NaiveTime> {
+        let r: ParseResult<NaiveTime> = if kani::any() { Ok(any_time(kani::any())) } else { Err(any_err()) };
+        if let Ok(t) = r {
+            kani::assume(p.hour_div_12 == Some(t.hour() / 12) && p.hour_mod_12 == Some(t.hour() % 12) && p.minute == Some(t.minute()));
+            match p.second {
+                Some(60) => kani::assume(t.second() == 59 && t.nanosecond() >= 1_000_000_000),
+                Some(sec) => kani::assume(t.second() == sec && t.nanosecond() < 1_000_000_000),
+                None => kani::assume(t.second() == 0 && t.nanosecond() == 0),
+            }
+            if let Some(n) = p.nanosecond { kani::assume(t.nanosecond() % 1_000_000_000 == n); }
+        }
+        unsafe { let i = TIME_CALLS as usize; if i < 2 { TIME_RES[i] = Some(r); } TIME_CALLS += 1; }
+        r
+    }
+    fn stub_from_timestamp(secs: i64, nsecs: u32) -> Option<crate::DateTime<crate::Utc>> {
+        kani::assume(nsecs == 0);                        // the only form this caller uses
+        let r = if kani::any() { Some(NaiveDateTime::new(any_valid_date(), any_time(0))) } else { None };
+        unsafe { FT_CALLS += 1; FT_ARGS = (secs, nsecs); FT_RES = r; }
+        r.map(|x| x.and_utc())
+    }
+    fn stub_checked_sub_signed(x: NaiveDateTime, rhs: TimeDelta) -> Option<NaiveDateTime> {
+        let r = if kani::any() { Some(NaiveDateTime::new(any_valid_date(), any_time(x.nanosecond()))) } else { None };
+        unsafe { CS_CALLS += 1; CS_ARGS = Some((x, rhs)); CS_RES = r; }
+        r
+    }
+
+    // fns: Parsed::to_naive_datetime_with_offset
+    // assumes: kani:vk_parsed_date_agrees, kani:vk_parsed_time, DateTime::from_timestamp, NaiveDateTime::checked_sub_signed
+    #[kani::proof]
+    #[kani::stub(Parsed::to_naive_date, stub_to_naive_date)]
+    #[kani::stub(Parsed::to_naive_time, stub_to_naive_time)]
+    #[kani::stub(crate::DateTime::<crate::Utc>::from_timestamp, stub_from_timestamp)]
+    #[kani::stub(NaiveDateTime::checked_sub_signed, stub_checked_sub_signed)]
+    fn vk_parsed_ndt_with_offset() {
+        let mut p = Parsed::new();
+        p.year = any_opt_i32(); p.ordinal = any_opt_u32(); p.month = any_opt_u32(); p.day = any_opt_u32();
+        p.hour_div_12 = any_opt_u32(); p.hour_mod_12 = any_opt_u32(); p.minute = any_opt_u32(); p.second = any_opt_u32(); p.nanosecond = any_opt_u32();
+        p.timestamp = if kani::any() { Some(kani::any()) } else { None };
+        let off: i32 = kani::any();
+        let r = p.to_naive_datetime_with_offset(off);          // returns for every input: no panic, no overflow
+        let (d1, t1) = unsafe { (DATE_RES[0].unwrap(), TIME_RES[0].unwrap()) };
+        kani::cover!(r.is_ok() && d1.is_err()); kani::cover!(r.is_ok() && p.second == Some(60) && unsafe { CS_CALLS } == 1);
+        kani::cover!(kind(&r) == Some(ParseErrorKind::Impossible) && d1.is_ok() && t1.is_ok());
+        match (d1, t1) {
+            (Ok(d), Ok(t)) => {
+                // both parts resolve: exactly that date-time, unless a supplied timestamp contradicts it
+                let dt = d.and_time(t);
+                let ts = dt.and_utc().timestamp() - off as i64;
+                let ts_ok = match p.timestamp { None => true, Some(g) => g == ts || (t.nanosecond() >= 1_000_000_000 && g == ts + 1) };
+                assert!(r == if ts_ok { Ok(dt) } else { Err(IMPOSSIBLE) }, "date and time resolve: that value, or Impossible when the timestamp disagrees");
+            }
+            _ => match p.timestamp {
+                None => assert!(r == Err(match d1 { Err(e) => e, Ok(_) => t1.unwrap_err() }), "without a timestamp the first error is reported"),
+                Some(g) => {
+                    let oor = kind(&d1) == Some(ParseErrorKind::OutOfRange) || kind(&t1) == Some(ParseErrorKind::OutOfRange);
+                    let imp = kind(&d1) == Some(ParseErrorKind::Impossible) || kind(&t1) == Some(ParseErrorKind::Impossible);
+                    if oor { assert!(r == Err(OUT_OF_RANGE), "an out-of-range part wins over the timestamp"); }
+                    else if imp { assert!(r == Err(IMPOSSIBLE), "an impossible part wins over the timestamp"); }
+                    else {
+                        // resolved from the timestamp: the second from_timestamp(g + off) names, or the leap second that ends there
+                        let (ft_calls, ft_args, base, cs_calls, cs_args, stepped) = unsafe { (FT_CALLS, FT_ARGS, FT_RES, CS_CALLS, CS_ARGS, CS_RES) };
+                        match g.checked_add(off as i64) {
+                            None => assert!(r == Err(OUT_OF_RANGE) && ft_calls == 0, "timestamp + offset out of i64: OutOfRange"),
+                            Some(sum) => {
+                                assert!(ft_calls == 1 && ft_args == (sum, 0), "the date-time is rebuilt from timestamp + offset");
+                                match base {
+                                    None => assert!(r == Err(OUT_OF_RANGE), "unrepresentable instant: OutOfRange"),
+                                    Some(base) => {
+                                        let step = p.second == Some(60) && base.second() == 0;
+                                        if p.second == Some(60) && base.second() != 0 && base.second() != 59 { assert!(r == Err(IMPOSSIBLE), "a leap second can only sit at the end of a minute"); }
+                                        if step { assert!(cs_calls == 1 && cs_args == Some((base, TimeDelta::try_seconds(1).unwrap())), "stepped back exactly one second"); } else { assert!(cs_calls == 0, "no step otherwise"); }
+                                        if step && stepped.is_none() { assert!(r == Err(OUT_OF_RANGE), "the step leaves the range: OutOfRange"); }
+                                        if let Ok(dt) = r {
+                                            let want = if step { stepped.unwrap() } else { base };
+                                            let (d2, t2) = unsafe { (DATE_RES[1].unwrap(), TIME_RES[1].unwrap()) };
+                                            assert!(d2 == Ok(dt.date()) && t2 == Ok(dt.time()), "the result is what the resolvers return for the completed field set");
+                                            assert!(dt.date() == want.date() && dt.hour() == want.hour() && dt.minute() == want.minute(), "date, hour and minute of the second the timestamp names");
+                                            if p.second != Some(60) { assert!(dt.second() == want.second() && dt.nanosecond() < 1_000_000_000, "that very second"); }
+                                            else { assert!(dt.second() == 59 && dt.nanosecond() >= 1_000_000_000, "second 60 is the leap representation"); }
+                                            if let Some(n) = p.nanosecond { assert!(dt.nanosecond() % 1_000_000_000 == n, "nanosecond field kept"); }
+                                        }
+                                    }
+                                }
+                            }
+                        }
+                    }
+                }
+            },
+        }
+    }
+
+    // ---- Parsed::to_datetime over the contract of to_naive_datetime_with_offset ---------------------------------------------------
+    static mut NDT_CALLS: u8 = 0;
+    static mut NDT_ARG: i32 = 0;
+    static mut NDT_RES: Option<ParseResult<NaiveDateTime>> = None;
+    fn stub_ndt_with_offset(_p: &Parsed, offset: i32) -> ParseResult<NaiveDateTime> {
+        let r: ParseResult<NaiveDateTime> = if kani::any() { Ok(NaiveDateTime::new(any_valid_date(), any_time(kani::any()))) } else { Err(any_err()) };
+        unsafe { NDT_CALLS += 1; NDT_ARG = offset; NDT_RES = Some(r); }
+        r
+    }
+
+    // fns: Parsed::to_datetime
+    // assumes: kani:vk_parsed_ndt_with_offset
+    #[kani::proof]
+    #[kani::stub(Parsed::to_naive_datetime_with_offset, stub_ndt_with_offset)]
+    fn vk_parsed_to_datetime() {
+        let mut p = Parsed::new();
+        p.offset = any_opt_i32();
+        p.timestamp = if kani::any() { Some(kani::any()) } else { None };
+        let r = p.to_datetime();
+        let (calls, arg, res) = unsafe { (NDT_CALLS, NDT_ARG, NDT_RES) };
+        kani::cover!(r.is_ok() && p.offset.is_none()); kani::cover!(kind(&r) == Some(ParseErrorKind::Impossible) && res.map_or(false, |x| x.is_ok()));
+        let off = match (p.offset, p.timestamp) { (Some(o), _) => Some(o), (None, Some(_)) => Some(0), (None, None) => None };
+        match off {
+            None => assert!(r == Err(NOT_ENOUGH) && calls == 0, "neither offset nor timestamp: not enough"),
+            Some(o) => {
+                assert!(calls == 1 && arg == o, "the local value is resolved with the supplied offset (0 for a bare timestamp)");
+                match res.unwrap() {
+                    Err(e) => assert!(r == Err(e), "the resolver's error is passed on"),
+                    Ok(local) => {
+                        if o <= -86_400 || o >= 86_400 { assert!(r == Err(OUT_OF_RANGE), "offset outside +/-23:59:59"); }
+                        else {
+                            let fo = FixedOffset::east_opt(o).unwrap();
+                            match local.checked_sub_offset(fo) {
+                                None => assert!(r == Err(IMPOSSIBLE), "local value whose instant is out of range"),
+                                Some(utc) => match r {
+                                    Ok(dt) => assert!(dt.naive_utc() == utc && dt.offset().local_minus_utc() == o, "exactly that local value at that offset"),
+                                    Err(_) => assert!(false, "a representable local value with a valid offset resolves"),
+                                },
+                            }
+                        }
+                    }
+                }
+            }
+        }
+    }
 }
+
